@@ -31,22 +31,22 @@ type hist struct {
 	rcMode bool
 	m      machine
 
-	prev      view // the store as last summarised on a line
-	last      view // the store after the last committed block / collection
-	cont      map[string][]byte
-	recs      map[uint32]*rec
-	heights   []uint32
-	gcDone    bool
-	gcAt      uint32
-	tied      bool
-	rootOnly  bool // after a dropped block with the live trie in memory: only state roots are compared
-	afterDrop bool
-	dropWild  bool              // some dropped block was outside the model (contents unpredictable)
-	spec      map[string][]byte // after a tied drop: the contents the property asks for (h.cont is then the as-built contents)
-	dropKeys  map[string]bool   // failure keys already reported after a drop
-	dead      bool // the machine panicked or errored: the case is over
-	probes    [][]byte
-	persisted int64 // height of the last block at the time of the last persist (-1: nothing persisted yet)
+	prev        view // the store as last summarised on a line
+	last        view // the store after the last committed block / collection
+	cont        map[string][]byte
+	recs        map[uint32]*rec
+	heights     []uint32
+	gcDone      bool
+	gcAt        uint32
+	tied        bool
+	rootOnly    bool // after a dropped block with the live trie in memory: only state roots are compared
+	afterDrop   bool
+	dropWild    bool              // some dropped block was outside the model (contents unpredictable)
+	spec        map[string][]byte // after a tied drop: the contents the property asks for (h.cont is then the as-built contents)
+	dropKeys    map[string]bool   // failure keys already reported after a drop
+	dead        bool // the machine panicked or errored: the case is over
+	probes      [][]byte
+	persisted   int64 // height of the last block at the time of the last persist (-1: nothing persisted yet)
 }
 
 func newHist(o *hx.Out, k int, mode string, m machine) *hist {
@@ -76,7 +76,6 @@ var storeAfterDrop = map[string]bool{
 	"count-mismatch": true, "latest:node-missing": true, "retained:node-missing": true,
 	"reachable-inactive": true, "garbage-node": true, "unreachable-active": true,
 	"retained:early-inactive": true, "retained-get-mismatch": true, "retained-find-mismatch": true,
-	"drop-changed-store": true,
 }
 
 // fail reports an oracle failure. After a dropped block every failure key is reported once per
@@ -329,7 +328,8 @@ func (h *hist) checkLeak(idx uint32) {
 		h.o.Count("precommit-store-checked:exact")
 	}
 	if x.leak != "" {
-		h.o.Fail("addmptbatch-writes-through", h.k, "[%s/%s] block %d: the module's store changed before the block was committed: %s", h.m.Name(), h.mode, idx, x.leak)
+		key := "addmptbatch-writes-through" // byte-exact on every lower layer (956252a, bb76634: no slice of a lower layer is written any more)
+		h.o.Fail(key, h.k, "[%s/%s] block %d: the module's store changed before the block was committed: %s", h.m.Name(), h.mode, idx, x.leak)
 	}
 	if x.tickObs != "" {
 		h.o.Count("drop:persist-tick-before-commit")
@@ -374,7 +374,7 @@ func (h *hist) drop(idx uint32, ops []subop) {
 	// from here on the node store is no longer predictable (Flush mutates stored slices in place),
 	// the state roots still are
 	h.rootOnly = true
-	if x, ok := h.m.(*modM); ok && x.copies && inMem {
+	if inMem {
 		h.rootOnly = false
 		h.o.Count("drop:tied-with-store")
 	}
@@ -384,6 +384,8 @@ func (h *hist) drop(idx uint32, ops []subop) {
 		if x, ok := h.m.(*modM); ok && x.copies {
 			h.o.Fail("addmptbatch-writes-through", h.k, "[%s/%s] dropped block %d changed the node store below the cache", h.m.Name(), h.mode, idx)
 		} else {
+			// since 956252a only possible after a restart (lazily loaded nodes alias the store's slices):
+			// folded into uncommitted-block:wild there, unknown after a tied drop
 			h.fail("drop-changed-store", "a dropped block changed the node store (in place, through shared slices)")
 		}
 	}
